@@ -27,6 +27,8 @@ ANCHORS = [
     ("src/easynetwork/serializers/base_stream.py", "FixedSizePacketSerializer.incremental_serialize"),
     ("src/easynetwork/serializers/line.py", "StringLineSerializer.incremental_deserialize"),
     ("src/easynetwork/serializers/line.py", "StringLineSerializer.buffered_incremental_deserialize"),
+    ("src/easynetwork/serializers/struct.py", "NamedTupleStructSerializer.iter_values"),
+    ("src/easynetwork/serializers/struct.py", "NamedTupleStructSerializer.from_tuple"),
     ("src/easynetwork/serializers/wrapper/base64.py", "Base64EncoderSerializer.serialize"),
     ("src/easynetwork/serializers/wrapper/base64.py", "Base64EncoderSerializer.deserialize"),
     ("src/easynetwork/protocol.py", "StreamProtocol.build_packet_from_chunks"),
@@ -410,8 +412,63 @@ def shipped_oracle(inp):
     return None
 
 
+# ------------------------------------------------------------------ NamedTupleStructSerializer codec (kind 32)
+
+def _nt_ser(n, strip, ascii_):
+    from easynetwork.serializers.struct import NamedTupleStructSerializer
+    return NamedTupleStructSerializer(sc2.Point, {"name": f"{n}s", "x": "B"}, encoding="ascii" if ascii_ else None,
+                                      strip_string_trailing_nul_bytes=bool(strip))
+
+
+def nt_cases(tier, rng, escalate):
+    """the real NamedTupleStructSerializer (one 'Ns' string field + one unsigned byte) against Frame/NtStruct.v: field
+    values over {a, b, NUL, 0x80} of every length 0..n incl. interior / leading / trailing NULs, strip on/off, bytes or
+    ascii-decoded field; frames deserialized: the produced one and raw frames with NULs anywhere"""
+    thorough = tier == "thorough" or escalate
+    for n in (1, 3, 5):
+        for strip in (1, 0):
+            for ascii_ in (0, 1):
+                for _ in range(60 if thorough else 12):
+                    ln = rng.randrange(0, n + 1)
+                    name = bytes(rng.choice(b"ab\x00\x00" + (b"" if ascii_ else b"\x80")) for _ in range(ln))
+                    x = rng.randrange(256)
+                    frames = [bytes(rng.choice(b"ab\x00\x00\x80") for _ in range(n)) + bytes([rng.randrange(256)]) for _ in range(3)]
+                    frames.append(bytes(rng.choice(b"ab") for _ in range(rng.choice([n, n + 2]))))
+                    yield dict(input=[32, n, strip, ascii_, name, x, frames],
+                               tags=["kind32", "ntstruct", f"n{n}", f"strip{strip}", "ascii" if ascii_ else "bytes",
+                                     "interior-nul" if b"\x00" in name.rstrip(b"\x00") else "no-interior-nul"],
+                               nontrivial=b"\x00" in name)
+
+
+def run_nt(inp):
+    from easynetwork.exceptions import DeserializeError
+    _k, n, strip, ascii_, name, x, frames = inp
+    ser = _nt_ser(n, strip, ascii_)
+
+    def de(frame):
+        try:
+            p = ser.deserialize(frame)
+        except DeserializeError:
+            return [1]
+        v = p.name.encode("ascii") if isinstance(p.name, str) else bytes(p.name)
+        return [0, v, p.x]
+
+    tok = ser.serialize(sc2.Point(name=name.decode("ascii") if ascii_ else name, x=x))
+    return [tok, de(tok), [de(f) for f in frames]]
+
+
+def nt_oracle(inp):
+    _k, n, strip, ascii_, name, x, _frames = inp
+    out = run_nt(inp)
+    fits = len(name) <= n and (name.rstrip(b"\0") == name if strip else len(name) == n)
+    if fits and out[1] != [0, name, x]:
+        return f"NamedTupleStructSerializer: deserialize(serialize(p)) != p for field {name!r} (n={n}, strip={strip}): {out[1]!r}"
+    return None
+
+
 def cases(tier, rng, escalate):
     yield from ser_cases(tier, rng, escalate)
+    yield from nt_cases(tier, rng, escalate)
     yield from b64_cases(tier, rng, escalate)
     yield from shipped_cases(tier, rng, escalate)
     yield from stapled_cases(tier, rng, escalate)
@@ -599,6 +656,8 @@ def _ser_setup(inp):
 
 
 def run_impl(inp):
+    if inp[0] == 32:
+        return run_nt(inp)
     if inp[0] == 31:
         return run_b64(inp)
     if inp[0] == 20:
@@ -652,6 +711,8 @@ def oracle(inp):
         return stapled_oracle(inp)
     if inp[0] == 31:
         return b64_oracle(inp)
+    if inp[0] == 32:
+        return nt_oracle(inp)
     if inp[0] == 20:
         return shipped_oracle(inp)
     kind, cfg, _dec, chunks, impl, sent, valid = inp[:7]
@@ -682,7 +743,7 @@ def shrink(inp):
         for i in range(len(data)):
             yield [10, inp[1], inp[2], data[:i] + data[i + 1:], inp[4]]
         return
-    if inp[0] in (31, 20):
+    if inp[0] in (31, 32, 20):
         return
     if inp[0] == 30:
         for inner in shrink(inp[4]):
